@@ -2021,3 +2021,46 @@ def exact_length(prog, fn, sinks, inp, const_n=None, sum_of=None):
                 sep_holds(prog, fn, [("rest.len()==b", cmp_fact("eq", length(rest), y, False))], sinks, require_fail_err=False):
             return "split_at_checked(a) is Some and rest.len() == b"
     return None
+
+
+def culprits_accessor(ctx):
+    """Error::culprits() names exactly what the error value carries: for every variant with a `culprit`/`culprits` field the result
+    is built from that field; for every other variant it is empty (decided per variant on the function's path cases)"""
+    from .paths import function_cases, Unbounded
+    P = ctx.prog
+    key = "frost_core::error::Error::<C>::culprits"
+    f = ctx.anchor(key)
+    adt = P.adts.get("frost_core::error::Error")
+    if not f or not adt:
+        if f and not adt:
+            ctx.violation("TAB", key, "error-enum-missing", "the Error enum was not found in the facts")
+        return
+    try:
+        cases = function_cases(P, f)
+    except Unbounded as e:
+        ctx.violation("PROV", key, "culprits()-per-variant", "not analysable: %s" % e, f.loc)
+        return
+    by_variant = {}
+    for c in cases:
+        vs = {fa[2] for fa in c["facts"] if fa[0] == "variant" and base_of(fa[1]) == ("arg", 1)}
+        for vn in vs:
+            by_variant.setdefault(vn, []).append(c["value"])
+    bad = []
+    n_c = 0
+    for var in adt["variants"]:
+        vn = var["name"]
+        cf = [x["name"] for x in var["fields"] if x["name"].startswith("culprit")]
+        vals = by_variant.get(vn)
+        if not vals:
+            bad.append("%s: no case" % vn)
+            continue
+        for val in vals:
+            if cf:
+                n_c += 1
+                if not mentions(val, lambda s_: s_[0] == "field" and s_[3] == cf[0] and s_[1][0] == "variant" and s_[1][2] == vn and base_of(s_[1][1]) == ("arg", 1)):
+                    bad.append("%s: result %s does not come from its `%s` field" % (vn, fmt(val)[:60], cf[0]))
+            elif mentions(val, lambda s_: s_ == ("arg", 1)) or not (is_call(val, name="new") or val[0] == "vec" and not val[1]):
+                bad.append("%s: result %s is not the empty list" % (vn, fmt(val)[:60]))
+    ctx.check(not bad and n_c >= 3, "PROV", key, "culprits()-per-variant",
+              "Error::culprits() must return the culprit(s) carried by InvalidSignatureShare / InvalidProofOfKnowledge / "
+              "InvalidSecretShare and nothing for every other variant: %s" % "; ".join(bad[:4]), f.loc)
